@@ -3,6 +3,9 @@ package checks
 import (
 	"bytes"
 	"fmt"
+	"os"
+	"runtime"
+	"strings"
 	"testing"
 	"time"
 
@@ -22,16 +25,17 @@ import (
 
 // ECase is a storage-error case.
 type ECase struct {
-	Opts      gen.OptSpec `json:"opts"`
-	Cmp       string      `json:"cmp"`
-	Keys      []gen.Hex   `json:"keys"`
-	Ops       []dbm.Op    `json:"ops"`
-	Faults    []vfs.Fault `json:"faults"`
-	ArmAt     int         `json:"armat"`  // the plan is armed before this op
-	HealAt    int         `json:"healat"` // and removed before this op (>= ArmAt)
-	After     []dbm.Op    `json:"after,omitempty"`
-	DamageBlk int         `json:"dmgblk,omitempty"` // >0: checksum clause: after the run, alter one byte of this data block (mod count) at rest
-	DamageOff int         `json:"dmgoff,omitempty"`
+	Opts       gen.OptSpec `json:"opts"`
+	Cmp        string      `json:"cmp"`
+	Keys       []gen.Hex   `json:"keys"`
+	Ops        []dbm.Op    `json:"ops"`
+	Faults     []vfs.Fault `json:"faults"`
+	ArmAt      int         `json:"armat"`  // the plan is armed before this op
+	HealAt     int         `json:"healat"` // and removed before this op (>= ArmAt)
+	After      []dbm.Op    `json:"after,omitempty"`
+	DamageBlk  int         `json:"dmgblk,omitempty"` // >0: checksum clause: after the run, alter one byte of this data block (mod count) at rest
+	DamageOff  int         `json:"dmgoff,omitempty"`
+	Redirected int         `json:"redirected,omitempty"` // fault draws redirected because of an open known finding
 }
 
 type eStats struct {
@@ -47,6 +51,92 @@ type eStats struct {
 }
 
 var errHung = fmt.Errorf("call did not return in time")
+
+// callCtl runs DB calls under a watchdog. In C08 mode a call that does not
+// return is merely inconclusive. In C09 mode the watchdog first heals the
+// storage (injected failures stop), allows the bound again, and then decides
+// with two goroutine dumps whether the call is in a stable blocked state.
+type callCtl struct {
+	strict  bool
+	fs      *vfs.FS
+	grace   time.Duration // time allowed while faults may still be active
+	bound   time.Duration // time allowed after the faults have healed
+	hangErr error
+}
+
+func stacksOfDB() map[string]string {
+	buf := make([]byte, 4<<20)
+	n := runtime.Stack(buf, true)
+	out := map[string]string{}
+	for _, g := range strings.Split(string(buf[:n]), "\n\n") {
+		if !strings.Contains(g, "goleveldb/leveldb") {
+			continue
+		}
+		lines := strings.Split(g, "\n")
+		head := lines[0] // goroutine N [state, duration]:
+		id := strings.Fields(head)[1]
+		state := head
+		if i := strings.Index(head, "["); i >= 0 {
+			state = head[i:]
+			if j := strings.IndexAny(state, ",]"); j >= 0 {
+				state = state[:j]
+			}
+		}
+		// keep function names only (arguments may legitimately differ in formatting)
+		var fr []string
+		for _, l := range lines[1:] {
+			if !strings.HasPrefix(l, "\t") {
+				if k := strings.Index(l, "("); k > 0 {
+					l = l[:k]
+				}
+				fr = append(fr, l)
+			}
+		}
+		out[id] = state + " " + strings.Join(fr, " < ")
+	}
+	return out
+}
+
+func (cc *callCtl) do(what string, f func()) bool {
+	done := make(chan struct{})
+	go func() { defer close(done); f() }()
+	wait := func(d time.Duration) bool {
+		select {
+		case <-done:
+			return true
+		case <-time.After(d):
+			return false
+		}
+	}
+	if wait(cc.grace) {
+		return true
+	}
+	if !cc.strict {
+		return false
+	}
+	cc.fs.Heal() // injected failures stop now
+	if wait(cc.bound) {
+		return true
+	}
+	a := stacksOfDB()
+	if wait(1500 * time.Millisecond) {
+		return true
+	}
+	b := stacksOfDB()
+	stable := len(a) == len(b)
+	for id, s := range a {
+		if b[id] != s {
+			stable = false
+		}
+		if strings.HasPrefix(s, "[runnable") || strings.HasPrefix(s, "[running") || strings.HasPrefix(s, "[sleep") || strings.HasPrefix(s, "[syscall") || strings.HasPrefix(s, "[IO wait") {
+			stable = false
+		}
+	}
+	if stable {
+		cc.hangErr = fmt.Errorf("%s did not return within %v after all injected failures had stopped, and the DB is in a stable blocked state:\n%s", what, cc.bound, goroutineDump())
+	}
+	return false
+}
 
 func timed(d time.Duration, f func()) bool {
 	done := make(chan struct{})
@@ -95,15 +185,31 @@ func allowedFor(issued []*model.Batch, k string) allowed {
 	return a
 }
 
-func runFaults(c *ECase) (st eStats, err error) {
+func runFaults(c *ECase) (eStats, error) { return runFaultsMode(c, false) }
+
+func runFaultsMode(c *ECase, strict bool) (st eStats, err error) {
 	defer func() {
 		if x := recover(); x != nil {
 			err = fmt.Errorf("panic: %v", x)
 		}
 	}()
-	const callTimeout = 25 * time.Second
 	o := c.Opts.Build(c.Cmp)
 	fs := vfs.New()
+	ctl := &callCtl{strict: strict, fs: fs, grace: 25 * time.Second, bound: 0}
+	if strict {
+		ctl.grace, ctl.bound = 3*time.Second, 12*time.Second
+		if os.Getenv("VERIF_C09_FAST") != "" { // while shrinking: shorter bounds (the result is re-checked with the full ones)
+			ctl.grace, ctl.bound = 1*time.Second, 4*time.Second
+		}
+	}
+	defer func() {
+		if strict {
+			// C09 decides only whether calls return; contents are C08's business
+			err = ctl.hangErr
+		} else if err == nil && ctl.hangErr != nil {
+			err = ctl.hangErr
+		}
+	}()
 	key := func(i int) []byte {
 		if len(c.Keys) == 0 {
 			return []byte("k")
@@ -120,7 +226,7 @@ func runFaults(c *ECase) (st eStats, err error) {
 		}
 		d := db
 		db = nil
-		return timed(callTimeout, func() { d.Close() })
+		return ctl.do("Close", func() { d.Close() })
 	}
 	defer closeDB()
 	var issued []*model.Batch
@@ -131,7 +237,7 @@ func runFaults(c *ECase) (st eStats, err error) {
 	checkRead := func(i int, k []byte) error {
 		var got []byte
 		var gerr error
-		if !timed(callTimeout, func() { got, gerr = db.Get(k, nil) }) {
+		if !ctl.do("Get", func() { got, gerr = db.Get(k, nil) }) {
 			st.hung = true
 			return errHung
 		}
@@ -167,7 +273,7 @@ func runFaults(c *ECase) (st eStats, err error) {
 		if db == nil {
 			// a failed reopen left us without a DB: try again
 			var oerr error
-			if !timed(callTimeout, func() { db, oerr = leveldb.Open(fs, o) }) {
+			if !ctl.do("Open", func() { db, oerr = leveldb.Open(fs, o) }) {
 				st.hung = true
 				return st, nil
 			}
@@ -200,7 +306,7 @@ func runFaults(c *ECase) (st eStats, err error) {
 			}
 			if tr != nil {
 				var werr error
-				if !timed(callTimeout, func() { werr = tr.Write(lb, wo) }) {
+				if !ctl.do("Transaction.Write", func() { werr = tr.Write(lb, wo) }) {
 					st.hung = true
 					return st, nil
 				}
@@ -208,7 +314,7 @@ func runFaults(c *ECase) (st eStats, err error) {
 					// the transaction can only be discarded now
 					t := tr
 					tr, trBatch = nil, nil
-					if !timed(callTimeout, func() { t.Discard() }) {
+					if !ctl.do("Transaction.Discard", func() { t.Discard() }) {
 						st.hung = true
 						return st, nil
 					}
@@ -219,7 +325,7 @@ func runFaults(c *ECase) (st eStats, err error) {
 			}
 			issued = append(issued, b)
 			var werr error
-			if !timed(callTimeout, func() { werr = db.Write(lb, wo) }) {
+			if !ctl.do("Write", func() { werr = db.Write(lb, wo) }) {
 				st.hung = true
 				return st, nil
 			}
@@ -248,7 +354,7 @@ func runFaults(c *ECase) (st eStats, err error) {
 			}
 		case "compact":
 			if tr == nil {
-				if !timed(callTimeout, func() { db.CompactRange(utilRangeE(c, op, key)) }) {
+				if !ctl.do("CompactRange", func() { db.CompactRange(utilRangeE(c, op, key)) }) {
 					st.hung = true
 					return st, nil
 				}
@@ -262,7 +368,7 @@ func runFaults(c *ECase) (st eStats, err error) {
 				return st, nil
 			}
 			var oerr error
-			if !timed(callTimeout, func() { db, oerr = leveldb.Open(fs, o) }) {
+			if !ctl.do("Open", func() { db, oerr = leveldb.Open(fs, o) }) {
 				st.hung = true
 				return st, nil
 			}
@@ -275,7 +381,7 @@ func runFaults(c *ECase) (st eStats, err error) {
 			if tr == nil {
 				var terr error
 				var t *leveldb.Transaction
-				if !timed(callTimeout, func() { t, terr = db.OpenTransaction() }) {
+				if !ctl.do("OpenTransaction", func() { t, terr = db.OpenTransaction() }) {
 					st.hung = true
 					return st, nil
 				}
@@ -288,7 +394,7 @@ func runFaults(c *ECase) (st eStats, err error) {
 				issued = append(issued, trBatch)
 				var cerr error
 				t := tr
-				if !timed(callTimeout, func() { cerr = t.Commit() }) {
+				if !ctl.do("Transaction.Commit", func() { cerr = t.Commit() }) {
 					st.hung = true
 					return st, nil
 				}
@@ -296,7 +402,7 @@ func runFaults(c *ECase) (st eStats, err error) {
 					trBatch.Mandatory = true
 				} else {
 					st.failedWrites++
-					if !timed(callTimeout, func() { t.Discard() }) {
+					if !ctl.do("Transaction.Discard", func() { t.Discard() }) {
 						st.hung = true
 						return st, nil
 					}
@@ -307,7 +413,7 @@ func runFaults(c *ECase) (st eStats, err error) {
 			if tr != nil {
 				t := tr
 				tr, trBatch = nil, nil
-				if !timed(callTimeout, func() { t.Discard() }) {
+				if !ctl.do("Transaction.Discard", func() { t.Discard() }) {
 					st.hung = true
 					return st, nil
 				}
@@ -319,7 +425,7 @@ func runFaults(c *ECase) (st eStats, err error) {
 	if tr != nil {
 		t := tr
 		tr = nil
-		if !timed(callTimeout, func() { t.Discard() }) {
+		if !ctl.do("Transaction.Discard", func() { t.Discard() }) {
 			st.hung = true
 			return st, nil
 		}
@@ -328,7 +434,7 @@ func runFaults(c *ECase) (st eStats, err error) {
 	scan := func(what string) (map[string]string, *model.Map, error) {
 		var kvs []model.KV
 		var serr error
-		if !timed(callTimeout, func() {
+		if !ctl.do("iterator scan", func() {
 			it := db.NewIterator(nil, nil)
 			kvs, serr = dbm.FullScan(it)
 			it.Release()
@@ -354,7 +460,7 @@ func runFaults(c *ECase) (st eStats, err error) {
 	}
 	if db != nil {
 		// let retried background work finish on the healed storage
-		timed(callTimeout, func() { db.VerifWaitIdle() })
+		ctl.do("VerifWaitIdle", func() { db.VerifWaitIdle() })
 		if _, _, err := scan("after the faults healed"); err != nil {
 			if err == errHung {
 				return st, nil
@@ -367,7 +473,7 @@ func runFaults(c *ECase) (st eStats, err error) {
 		return st, nil
 	}
 	var oerr error
-	if !timed(callTimeout, func() { db, oerr = leveldb.Open(fs, o) }) {
+	if !ctl.do("Open", func() { db, oerr = leveldb.Open(fs, o) }) {
 		st.hung = true
 		return st, nil
 	}
@@ -556,6 +662,26 @@ func drawECase(t *rapid.T, excluded map[string]bool) *ECase {
 		return f
 	})
 	c.Faults = rapid.SliceOfN(fg, 1, 3).Draw(t, "faults")
+	if excluded["f9-manifest-fault-with-transaction"] {
+		// open finding F9: a manifest write/sync failure during a transaction commit followed by
+		// Discard leaves a manifest record that references removed tables. Workloads with
+		// transactions or oversized batches get their manifest write/sync faults redirected.
+		hasTr := false
+		for _, op := range c.Ops {
+			if op.T == "tropen" || (op.T == "batch" && len(op.B) >= 3) {
+				hasTr = true
+			}
+		}
+		if hasTr {
+			for i := range c.Faults {
+				f := &c.Faults[i]
+				if (f.Kind == vfs.OpWrite || f.Kind == vfs.OpSync) && (f.FType == "manifest" || f.FType == "any") {
+					f.FType = "table"
+					c.Redirected++
+				}
+			}
+		}
+	}
 	c.ArmAt = rapid.IntRange(0, len(c.Ops)/2).Draw(t, "armat")
 	c.HealAt = c.ArmAt + rapid.IntRange(1, len(c.Ops)).Draw(t, "healspan")
 	pa := &dbm.Profile{Prop: "C08", MinOps: 0, MaxOps: 20, DetPercent: 100,
@@ -585,9 +711,14 @@ func TestC08(t *testing.T) {
 	rec := evid.New("C08")
 	defer rec.Flush()
 	rapid.Check(t, func(rt *rapid.T) {
-		c := drawECase(rt, nil)
+		c := drawECase(rt, excludedSet())
+		rec.Add("excluded_by_known_finding", c.Redirected)
 		saveJSON("VERIF_INFLIGHT", c)
+		t0 := time.Now()
 		st, err := runFaults(c)
+		if d := time.Since(t0); d > 2*time.Second && os.Getenv("VERIF_DEBUG") != "" {
+			fmt.Printf("SLOW %.1fs hung=%v faults=%+v fired=%s\n", d.Seconds(), st.hung, c.Faults, describeFired(st.fired))
+		}
 		if err != nil {
 			reportFail("C08", c, err)
 			rt.Fatalf("C08 violated: %v", err)
@@ -627,5 +758,5 @@ func TestC08(t *testing.T) {
 
 // runFaultsFor dispatches to the fault engine of the given property.
 func runFaultsFor(prop string, c *ECase) (eStats, error) {
-	return runFaults(c)
+	return runFaultsMode(c, prop == "C09")
 }
